@@ -381,7 +381,19 @@ pub fn expr_to_source_with_scope(
                 name.clone()
             }
         }
-        Expr::InputReference(field) => format!("#{}", field),
+        // `#field` is `inputs.field`: when `inputs` is inlined, print it the way that form is printed
+        // (a field spelled like a reserved word cannot follow `.`: it is indexed by name instead)
+        Expr::InputReference(field) => match scope.get("inputs") {
+            Some(value) if is_valid_identifier(field) => {
+                format!("{}.{}", serializable_value_to_source(value), field)
+            }
+            Some(value) => format!(
+                "{}[{}]",
+                serializable_value_to_source(value),
+                string_to_source(field)
+            ),
+            None => format!("#{}", field),
+        },
         // For all other expression types, recursively process with scope
         Expr::Number(n) => {
             if n.fract() == 0.0 && n.abs() < 1e15 {
